@@ -181,7 +181,6 @@ class RaggedIndexedContiguousArray(RaggedArray):
         for d, size in enumerate(self.source().shape):
             if d == d1:
                 index = np.array(self.get_index())
-                unique = np.unique(index).tolist()
                 count_partial_sums = np.cumsum(
                     np.array(self.get_count())
                 ).tolist()
@@ -189,7 +188,11 @@ class RaggedIndexedContiguousArray(RaggedArray):
                 max_n_profiles = self.shape[u_dims[1]]
 
                 ind = []
-                for i in unique:
+                # Loop over every instance of the uncompressed array,
+                # including any instance that has no profiles
+                # (i.e. whose number is absent from the index
+                # variable).
+                for i in range(self.shape[u_dims[0]]):
                     # find the locations in the count array for the profiles
                     # in this feature.
                     profile_locations = np.where(index == i)[0]
